@@ -827,7 +827,15 @@ func c16r4(c *core.Ctx) {
 					}
 				}
 			})
-			if strings.Join(seq, ",") != "tag,length,value" {
+			appended := false
+			sg.Instrs(func(i ssa.Instruction) {
+				if call, ok := i.(*ssa.Call); ok {
+					if b, isB := call.Call.Value.(*ssa.Builtin); isB && b.Name() == "append" {
+						appended = true
+					}
+				}
+			})
+			if strings.Join(seq, ",") != "tag,length,value" || !appended {
 				bad++
 				if w == nil {
 					w = pa
@@ -836,7 +844,7 @@ func c16r4(c *core.Ctx) {
 		}
 	})
 	if bad > 0 {
-		c.BadPath("item-read-sequence@"+fname(r), r.Pos(), w.Describe(p), "%d iteration path(s) go on to the next item without having read tag, length and value of the current one: the unread value bytes are parsed as further items (data that was never set)", bad)
+		c.BadPath("item-read-sequence@"+fname(r), r.Pos(), w.Describe(p), "%d iteration path(s) go on to the next item without having read tag, length and value of the current one (or without keeping it): the unread value bytes are parsed as further items (data that was never set), or a parsed item is dropped", bad)
 	} else {
 		c.Check(iters > 0, "item-read-sequence@"+fname(r), r.Pos(), fmt.Sprintf("every one of %d iteration paths reads tag, length and value before the next item", iters), "no iteration path")
 	}
@@ -845,6 +853,7 @@ func c16r4(c *core.Ctx) {
 // ---------------------------------------------------------------- C17 additions
 
 func c17r6(c *core.Ctx) {
+	tlv8ListEncoding(c)
 	p := c.P
 	f := p.Func("tlv8", "structPayload")
 	if f == nil {
@@ -1122,6 +1131,7 @@ func c04r7(c *core.Ctx) {
 	c02r2(c)
 	c05r1(c)
 	sessionAccessors(c, "handlers")
+	contextAccessors(c)
 	handlerErrorHandling(c)
 	handlersKeepNoState(c, []*ssa.Function{c.P.Func("hap/endpoint", "(*PairSetup).ServeHTTP"), c.P.Func("hap/endpoint", "(*PairVerify).ServeHTTP"), c.P.Func("hap/endpoint", "(*Pairing).ServeHTTP")}, "a pairing endpoint")
 	wrappersPure(c, cryptoWrappers)
@@ -1198,6 +1208,7 @@ func c09r7(c *core.Ctx) {
 		c.Undecided("Characteristics", token.NoPos, "not found")
 		return
 	}
+	putDecisions(c, f)
 	// ids: ?id=<aid>.<iid>,<aid>.<iid> — key "id", separators "," and ".", aid = part 0, iid = part 1
 	var lookups []*ssa.Call
 	core.Instrs(f, func(i ssa.Instruction) {
@@ -1669,98 +1680,163 @@ func handlerErrorHandling(c *core.Ctx) {
 			continue
 		}
 		for _, h := range mo.handlers {
-			h := h
-			isErrItem := func(i ssa.Instruction) bool {
+			errorTestPolarity(c, h, func(i ssa.Instruction) bool {
 				if !core.IsInvoke(i, qContainer, "SetByte") {
 					return false
 				}
 				t, ok := core.ConstInt(core.CallOf(i).Args[0])
 				return ok && t == 7
+			})
+		}
+	}
+}
+
+// errorTestPolarity: for every test of a call's error in f ( if err != nil / if err == nil ):
+//   - everything that follows the "err != nil" edge signals the failure before it returns: a non-nil error result, or an
+//     instruction accepted by signals (an error item in a response); the edge of an  err == io.EOF  test is not followed (end of
+//     input is not a failure of the caller's request);
+//   - from the "err == nil" edge a return with a nil error is reachable without passing a signal.
+// An inverted test, a test without consequence and a success path that can only fail are all reported.
+func errorTestPolarity(c *core.Ctx, f *ssa.Function, signals func(ssa.Instruction) bool, lenient ...bool) {
+	p := c.P
+	nres := f.Signature.Results().Len()
+	if nres == 0 || f.Signature.Results().At(nres-1).Type().String() != "error" {
+		return
+	}
+	if signals == nil {
+		signals = func(ssa.Instruction) bool { return false }
+	}
+	type test struct {
+		iff             *ssa.If
+		ev              ssa.Value
+		failIdx         int
+		silent, success bool
+		witness         core.Path
+	}
+	tests := map[*ssa.BasicBlock]*test{}
+	for _, b := range f.Blocks {
+		iff, ok := b.Instrs[len(b.Instrs)-1].(*ssa.If)
+		if !ok {
+			continue
+		}
+		bo, ok := iff.Cond.(*ssa.BinOp)
+		if !ok || (bo.Op != token.NEQ && bo.Op != token.EQL) {
+			continue
+		}
+		var ev ssa.Value
+		switch {
+		case core.IsNilConst(bo.Y):
+			ev = bo.X
+		case core.IsNilConst(bo.X):
+			ev = bo.Y
+		default:
+			continue
+		}
+		if ev.Type().String() != "error" {
+			continue
+		}
+		fromCall := core.SomeSource(ev, func(s ssa.Value) bool {
+			switch x := s.(type) {
+			case *ssa.Call:
+				return true
+			case *ssa.Extract:
+				_, isCall := x.Tuple.(*ssa.Call)
+				return isCall
 			}
-			nTests, bad := 0, 0
-			for _, b := range h.Blocks {
-				iff, ok := b.Instrs[len(b.Instrs)-1].(*ssa.If)
-				if !ok {
-					continue
-				}
-				bo, ok := iff.Cond.(*ssa.BinOp)
-				if !ok || (bo.Op != token.NEQ && bo.Op != token.EQL) {
-					continue
-				}
-				var ev ssa.Value
-				switch {
-				case core.IsNilConst(bo.Y):
-					ev = bo.X
-				case core.IsNilConst(bo.X):
-					ev = bo.Y
-				default:
-					continue
-				}
-				if ev.Type().String() != "error" {
-					continue
-				}
-				// the error of a call (possibly through a variable)
-				fromCall := core.AnySource(ev, func(s ssa.Value) bool {
-					switch x := s.(type) {
-					case *ssa.Call:
-						return true
-					case *ssa.Extract:
-						_, isCall := x.Tuple.(*ssa.Call)
-						return isCall
+			return false
+		})
+		if !fromCall {
+			continue
+		}
+		t := &test{iff: iff, ev: ev}
+		if bo.Op == token.EQL {
+			t.failIdx = 1
+		}
+		tests[b] = t
+	}
+	if len(tests) == 0 {
+		c.OK("error-test-polarity@"+fname(f), f.Pos(), "no test of a call's error")
+		return
+	}
+	isEOF := func(v ssa.Value) bool {
+		u, ok := v.(*ssa.UnOp)
+		if !ok {
+			return false
+		}
+		g, ok := u.X.(*ssa.Global)
+		return ok && g.Pkg != nil && g.Pkg.Pkg.Path() == "io" && (g.Name() == "EOF" || g.Name() == "ErrUnexpectedEOF")
+	}
+	okEnum := core.EnumPaths(f, 2, 300000, func(pa core.Path) {
+		ret := pa.Returns()
+		for k := 0; k+1 < len(pa); k++ {
+			t := tests[pa[k]]
+			if t == nil {
+				continue
+			}
+			failed := pa[k+1] == pa[k].Succs[t.failIdx]
+			// on this path the tested value may be a merged variable standing for a nil constant: the success edge, necessarily
+			if core.IsNilConst(pa.ResolveAt(k, t.ev)) {
+				failed = false
+			}
+			signalled, endOfInput := false, false
+			for m := k + 1; m < len(pa); m++ {
+				for _, i := range pa[m].Instrs {
+					if signals(i) {
+						signalled = true
 					}
-					return false
-				})
-				if !fromCall {
-					continue
 				}
-				nTests++
-				failIdx := 0
-				if bo.Op == token.EQL {
-					failIdx = 1
-				}
-				// (a1) the failure edge: every way to a return signals the failure
-				silent := false
-				core.Explore(b.Succs[failIdx], core.PredIndex(b, failIdx), nil, func(x *ssa.BasicBlock) bool {
-					for _, i := range x.Instrs {
-						if isErrItem(i) {
-							return false
+				if m+1 < len(pa) {
+					if iff, ok := pa[m].Instrs[len(pa[m].Instrs)-1].(*ssa.If); ok {
+						if bo, ok := iff.Cond.(*ssa.BinOp); ok && bo.Op == token.EQL && (isEOF(bo.X) || isEOF(bo.Y)) && pa[m+1] == pa[m].Succs[0] {
+							endOfInput = true
 						}
-						if r, isR := i.(*ssa.Return); isR {
-							if len(res(r)) == 2 && !core.IsNilConst(res(r)[1]) {
-								return false
-							}
-							silent = true
-							return false
+						if bo, ok := iff.Cond.(*ssa.BinOp); ok && bo.Op == token.NEQ && (isEOF(bo.X) || isEOF(bo.Y)) && pa[m+1] == pa[m].Succs[1] {
+							endOfInput = true
 						}
 					}
-					return true
-				})
-				// (a2) the success edge: a success exit is reachable
-				success := false
-				core.Explore(b.Succs[1-failIdx], core.PredIndex(b, 1-failIdx), nil, func(x *ssa.BasicBlock) bool {
-					for _, i := range x.Instrs {
-						if isErrItem(i) {
-							return false
-						}
-						if r, isR := i.(*ssa.Return); isR {
-							if len(res(r)) == 2 && core.IsNilConst(res(r)[1]) && !core.IsNilConst(res(r)[0]) {
-								success = true
-							}
-							return false
-						}
-					}
-					return !success
-				})
-				if silent || !success {
-					bad++
-					c.Bad(fmt.Sprintf("error-test-polarity@%s/%s", fname(h), p.Position(condPosOf(iff))), condPosOf(iff),
-						"the test of a call's error in %s is the wrong way round or without consequence: after a failure the handler can answer without error item and with a nil error (silent=%v), or after success no successful answer is reachable (success exit=%v)", fname(h), silent, success)
 				}
 			}
-			if bad == 0 {
-				c.OK("error-test-polarity@"+fname(h), h.Pos(), "%d error tests: the failure edge always signals the failure, the success edge can succeed", nTests)
+			var errv ssa.Value
+			if ret != nil {
+				errv = pa.ResolveAt(len(pa)-1, res(ret)[nres-1])
+			}
+			if failed {
+				reported := ret == nil || signalled || endOfInput || (errv != nil && !core.IsNilConst(errv))
+				if !reported && !t.silent {
+					t.silent, t.witness = true, pa
+				}
+			} else if ret != nil && !signalled {
+				if core.IsNilConst(errv) || !core.SomeSource(errv, func(s ssa.Value) bool { return core.SomeSource(t.ev, func(e ssa.Value) bool { return e == s }) }) {
+					t.success = true
+				}
 			}
 		}
+	})
+	if !okEnum {
+		c.Undecided("error-test-polarity@"+fname(f), f.Pos(), "too many paths")
+		return
+	}
+	bad := 0
+	for _, b := range f.Blocks {
+		t := tests[b]
+		if t == nil {
+			continue
+		}
+		if len(lenient) > 0 && lenient[0] {
+			t.silent = false // this function is known to drop some errors on purpose (or by old habit); only inverted tests are reported
+		}
+		if t.silent || !t.success {
+			bad++
+			var desc []string
+			if t.witness != nil {
+				desc = t.witness.Describe(p)
+			}
+			c.BadPath(fmt.Sprintf("error-test-polarity@%s/%s", fname(f), p.Position(condPosOf(t.iff))), condPosOf(t.iff), desc,
+				"the test of a call's error in %s is the wrong way round or without consequence: after a failure the function can return without reporting it (silent=%v), or after success no successful return is reachable (success exit=%v)", fname(f), t.silent, t.success)
+		}
+	}
+	if bad == 0 {
+		c.OK("error-test-polarity@"+fname(f), f.Pos(), "%d error tests: the failure edge always reports the failure, the success edge can succeed", len(tests))
 	}
 }
 
@@ -1770,4 +1846,148 @@ func instrDominatesOrSameBlockBefore(a, b ssa.Instruction) bool {
 		return false
 	}
 	return instrDominates(a, b)
+}
+
+// contextAccessors (C04-R7 / C01-R3): the key-value store behind sessions: Set stores, Get returns the entry, Delete deletes, and the
+// typed session lookup returns the session exactly when the entry is one.
+func contextAccessors(c *core.Ctx) {
+	p := c.P
+	ctxT := mod + "/hap.context"
+	if f := p.Func("hap", "(*context).Set"); f != nil {
+		ok := false
+		core.Instrs(f, func(i ssa.Instruction) {
+			if mu, isMU := i.(*ssa.MapUpdate); isMU {
+				if _, isF := core.FieldLoad(mu.Map, ctxT, "storage"); isF && valIs(mu.Key, f.Params[1]) && valIs(mu.Value, f.Params[2]) && !reachesAfter(mu, mu) {
+					ok = core.Dominated(mu, func(ssa.Value) (bool, bool) { return false, false }) == false
+				}
+			}
+		})
+		c.Check(ok, "context-set", f.Pos(), "Set stores the value under the key", "context.Set does not store the value under the key: sessions are never found again, every request is answered as unverified")
+	}
+	if f := p.Func("hap", "(*context).Get"); f != nil {
+		ok := returnsOnly(f, func(v ssa.Value) bool {
+			lk, isL := v.(*ssa.Lookup)
+			if !isL {
+				return false
+			}
+			_, isF := core.FieldLoad(lk.X, ctxT, "storage")
+			return isF && valIs(lk.Index, f.Params[1])
+		})
+		c.Check(ok, "context-get", f.Pos(), "Get returns the entry stored under the key", "context.Get does not return the entry stored under the key")
+	}
+	if f := p.Func("hap", "(*context).Delete"); f != nil {
+		ok := false
+		core.Instrs(f, func(i ssa.Instruction) {
+			if call, isC := i.(*ssa.Call); isC {
+				if b, isB := call.Call.Value.(*ssa.Builtin); isB && b.Name() == "delete" {
+					if _, isF := core.FieldLoad(call.Call.Args[0], ctxT, "storage"); isF && valIs(call.Call.Args[1], f.Params[1]) {
+						ok = true
+					}
+				}
+			}
+		})
+		c.Check(ok, "context-delete", f.Pos(), "Delete removes the entry of the key", "context.Delete does not remove the entry: closed connections stay in the recipient set and their sessions stay verified")
+	}
+	if f := p.Func("hap", "(*context).GetSessionForConnection"); f != nil {
+		good, n := true, 0
+		core.Instrs(f, func(i ssa.Instruction) {
+			r, isR := i.(*ssa.Return)
+			if !isR || len(res(r)) != 1 || core.IsNilConst(res(r)[0]) {
+				return
+			}
+			n++
+			// a session is handed back only from the ok branch of the assertion it came from
+			for _, s := range core.Sources(res(r)[0]) {
+				e, isE := s.(*ssa.Extract)
+				if !isE {
+					good = false
+					continue
+				}
+				ta, isTA := e.Tuple.(*ssa.TypeAssert)
+				if !isTA || !ta.CommaOk {
+					good = false
+					continue
+				}
+				okFact := core.TrueFact(func(v ssa.Value) bool {
+					e2, ok := v.(*ssa.Extract)
+					return ok && e2.Tuple == ssa.Value(ta) && e2.Index == 1
+				})
+				if !core.Dominated(r, okFact) {
+					good = false
+				}
+			}
+		})
+		c.Check(good && n > 0, "context-session-lookup", f.Pos(), "the session is returned on the branch where the entry is a session", "GetSessionForConnection returns the asserted value where the assertion failed (test inverted): existing sessions are not found, connections are treated as unverified / unencrypted")
+	}
+}
+
+// putDecisions: the write half of the /characteristics handler acts on the members the request carries: a "value" member is
+// written exactly when present, an "ev" member (un)subscribes exactly when present, both Subscribe and Unsubscribe exist on their
+// branch, the request body is decoded before use with its error the right way round, and a verified session reaches the handler body.
+func putDecisions(c *core.Ctx, f *ssa.Function) {
+	hasMember := func(fld string) core.CondFact {
+		return core.NonNilFact(func(v ssa.Value) bool { _, ok := core.FieldLoad(v, tCharReq, fld); return ok })
+	}
+	nw := 0
+	core.Instrs(f, func(i ssa.Instruction) {
+		if core.IsCall(i, "(*"+tChar+").UpdateValueFromConnection") {
+			nw++
+			c.Check(core.Dominated(i, hasMember("Value")), "put-value-when-present@"+fname(f), posOf(i), "the write happens on the branch where the entry has a value member", "the write is not tied to the presence of a value member (test inverted or missing): entries without value write nil, entries with a value are ignored")
+		}
+	})
+	c.Check(nw > 0, "put-writes@"+fname(f), f.Pos(), "the PUT branch writes values", "the PUT branch never calls UpdateValueFromConnection: controller writes have no effect")
+	var sub, unsub ssa.Instruction
+	core.Instrs(f, func(i ssa.Instruction) {
+		if core.IsInvoke(i, qSession, "Subscribe") {
+			sub = i
+		}
+		if core.IsInvoke(i, qSession, "Unsubscribe") {
+			unsub = i
+		}
+	})
+	if sub != nil {
+		c.Check(core.Dominated(sub, hasMember("Events")), "put-ev-when-present@"+fname(f), posOf(sub), "subscriptions change on the branch where the entry has an ev member", "subscriptions are changed for entries without an ev member (test inverted)")
+	}
+	c.Check(sub != nil && unsub != nil, "put-subscribe-and-unsubscribe@"+fname(f), f.Pos(), "ev:true subscribes and ev:false unsubscribes", "one of Subscribe / Unsubscribe is never called: a controller cannot turn events on (or off again — it keeps receiving events it no longer wants)")
+	// a verified session (non-nil, with an encrypter) gets past the handler's own session test
+	var first ssa.Instruction
+	core.Instrs(f, func(i ssa.Instruction) {
+		if first == nil && (core.IsCall(i, "(*net/http.Request).ParseForm") || core.IsCall(i, "io/ioutil.ReadAll") || core.IsCall(i, "io.ReadAll")) {
+			first = i
+		}
+	})
+	if first != nil {
+		req := paramOfType(f, "net/http.Request")
+		isSess := func(v ssa.Value) bool { return req != nil && sessionOfRequest(v, req) }
+		isEnc := func(v ssa.Value) bool {
+			call, ok := v.(*ssa.Call)
+			return ok && (core.IsInvoke(call, qSession, "Encrypter") || core.IsInvoke(call, qSession, "Decrypter"))
+		}
+		reach := core.ReachableFromEntry(first, core.CutWhere(core.AnyFact(core.IsNilFact(isSess), core.IsNilFact(isEnc))))
+		c.Check(reach, "verified-session-served@"+fname(f), posOf(first), "a request of a verified session reaches the handler body", "the handler's own session test turns verified sessions away (test inverted): no controller can read or write characteristics")
+	}
+	// the decoding error of the request body: failure answers with an error status, success goes on
+	core.Instrs(f, func(i ssa.Instruction) {
+		call, ok := i.(*ssa.Call)
+		if !ok || core.Callee(call) == nil || cn(core.Callee(call)) != "JSONDecode" {
+			return
+		}
+		failed := core.NonNilFact(func(v ssa.Value) bool { return v == ssa.Value(call) || core.AnySource(v, func(s ssa.Value) bool { return s == ssa.Value(call) }) })
+		good := true
+		n := 0
+		core.Instrs(f, func(j ssa.Instruction) {
+			if core.IsCall(j, "(*"+tChar+").UpdateValueFromConnection") || core.IsInvoke(j, qSession, "Subscribe") {
+				n++
+				// acting on the request needs the success edge: cut the failure edge and it must stay reachable; cut success and it must not
+				if !core.ReachableFromEntry(j, core.CutWhere(failed)) {
+					good = false
+				}
+				ok := core.IsNilFact(func(v ssa.Value) bool { return v == ssa.Value(call) || core.AnySource(v, func(s ssa.Value) bool { return s == ssa.Value(call) }) })
+				if core.ReachableFromEntry(j, core.CutWhere(ok)) {
+					good = false
+				}
+			}
+		})
+		c.Check(good && n > 0, "put-decode-error-polarity@"+fname(f), posOf(call), "the request is acted on exactly where decoding succeeded", "the decoding error of the request body is tested the wrong way round (or not at all): well-formed requests are answered with an error, malformed ones are acted on with zero values")
+	})
 }
